@@ -430,8 +430,8 @@ kproof! {
     /// K01g: the same for a PNG chunk: IDAT descriptor, plaintext and corrections survive the framing and the real
     /// recreate_idat re-chunks what the reconstruction returned
     #[kani::stub(crate::preflate_container::recompress_deflate_stream, stub_recompress_echo)]
-    #[kani::stub(crc32fast::Hasher::update, crc32fast::Hasher::update_cheap)]
     fn k01g_idat_chunk_framing() {
+        crc32fast::verif_set_cheap(true);
         let plain: [u8; 1] = kani::any();
         let corr: [u8; 2] = kani::any();
         // echo returns 2 + 1 + 2 = 5 bytes; zlib header 2 + Adler 4 -> 11 payload bytes in chunks of 7 + 4
